@@ -24,6 +24,7 @@ type c08Scenario struct {
 	up, down   int    // request / response body chunks
 	failFirst  int    // attempts the peer makes fail first
 	maxRetries int
+	unlimited  bool // SetRetryCount(-1): retry without limit (maxRetries is what the model is told: beyond the script)
 	reused     bool // a warm-up request leaves an idle / shared connection
 	waitConn   bool // MaxConnsPerHost=1 and the only connection is busy
 	autoRead   bool // req's default: the response body is read inside the attempt
@@ -208,7 +209,11 @@ func c08Exec(sc c08Scenario, kind string, trigger int, timeoutFlavour bool, clie
 		return nil
 	})
 	if sc.maxRetries > 0 {
-		c.SetCommonRetryCount(sc.maxRetries)
+		if sc.unlimited {
+			c.SetCommonRetryCount(-1)
+		} else {
+			c.SetCommonRetryCount(sc.maxRetries)
+		}
 		c.SetCommonRetryInterval(func(_ *Response, _ int) time.Duration {
 			run.hit("", "sleepStart", true)
 			return sc.interval
@@ -654,6 +659,8 @@ func c08Scenarios(proto string) []c08Scenario {
 		{name: "download", proto: proto, down: 5},
 		{name: "retry", proto: proto, down: 2, failFirst: 1, maxRetries: 2, interval: iv},
 		{name: "retry-upload", proto: proto, up: 2, down: 1, failFirst: 1, maxRetries: 1, interval: iv},
+		// rare but legal: a negative retry count = retry without limit
+		{name: "retry-unlimited", proto: proto, down: 1, failFirst: 2, maxRetries: 9, unlimited: true, interval: iv / 3},
 	}
 	// rare but legal: "Expect: 100-continue" — after the request head the transport holds the body
 	// back until the peer says "100 Continue" (or ExpectContinueTimeout, far beyond the promptness
